@@ -678,6 +678,11 @@ func (fr *Frame) allocObligation(st *State, in ssa.Instruction, n *Term, et type
 // ---- channels, goroutines, ranges (minimal models)
 
 func (fr *Frame) execRecv(st *State, x *ssa.UnOp, ch *Val) *Val {
+	if fr.contract != nil && fr.depth == 0 && fr.contract.Opts["noplainrecv"] == "yes" && fr.c.dry == 0 {
+		// mechanism obligation (C11): this function may wait only inside a select that also watches
+		// the closure / cancellation channels; a plain receive waits for one peer unconditionally
+		fr.c.oblige(fr, st, "safe", fmt.Sprintf("safe:plainrecv#%d", fr.c.ordinals[x]), False, []string{"C11"}, "blocking receive outside a select: "+x.String(), false)
+	}
 	et := x.X.Type().Underlying().(*types.Chan).Elem()
 	v, facts := freshVal(et, "recv")
 	for _, f := range facts {
